@@ -172,7 +172,7 @@ def scenario(sim: Sim) -> None:
         req_ch: Any = Broadcast(name="ds-requests")
         actor = DataSourcingActor(req_ch.new_receiver(limit=1000), reg)
         type(actor).RESTART_DELAY = timedelta(microseconds=restart_delay_us)
-        orig_delay = actor._delay_if_restart
+        orig_delay = getattr(actor, "_delay_if_restart", None)      # (private: observed if it exists, else time-based only)
 
         async def observed_delay(iteration: int) -> None:
             restarting[0] = iteration > 0
@@ -185,7 +185,8 @@ def scenario(sim: Sim) -> None:
             finally:
                 restarting[0] = False
 
-        actor._delay_if_restart = observed_delay  # type: ignore[method-assign]
+        if orig_delay is not None:
+            actor._delay_if_restart = observed_delay  # type: ignore[method-assign]
         actor.start()
         req_tx = req_ch.new_sender()
         await asyncio.sleep(0.001)
